@@ -132,28 +132,50 @@ func HarnessTLSSync() {
 		svcs = append(svcs, s)
 		m.services[s.name] = s
 	}
-	before := []ServiceOptions{}
-	for _, s := range svcs {
-		before = append(before, s.options)
-	}
 	m.updateRequestServiceMap()
-	for i, s := range svcs {
+	// then one more command through the public mutators: redeploy with the same bindings but new TLS flags,
+	// deploy of a further service, or removal
+	switch vChoose("op", 4) {
+	case 1:
+		i := vChoose("which", S)
+		old := svcs[i]
+		n := &Service{name: old.name, options: old.options, pauseController: NewPauseController()}
+		n.options.TLSEnabled = vBool("new_tls")
+		n.options.TLSRedirect = vBool("new_redir")
+		m.Set(n)
+		svcs[i] = n
+	case 2:
+		n := vServiceWith("n", "new", 1, vParam("prefixes", 2), vParam("hostcap", 2), vParam("prefcap", 2))
+		n.options.TLSEnabled = vBool("new_tls")
+		n.options.TLSRedirect = vBool("new_redir")
+		for _, o := range svcs {
+			vAssume(!vConflict(n, o))
+		}
+		m.Set(n)
+		svcs = append(svcs, n)
+	case 3:
+		i := vChoose("which", S)
+		m.Remove(svcs[i].name)
+		svcs = append(append([]*Service{}, svcs[:i]...), svcs[i+1:]...)
+	}
+	// The flags a root-path service was deployed with are its own; sub-path services must mirror the root-path
+	// service that routes (first host, "/") as the table stands now.
+	changed := false
+	for _, s := range svcs {
 		root := false
 		for _, p := range s.options.PathPrefixes {
 			root = vOr(root, p == "/")
 		}
 		if root {
-			vAssert(s.options.TLSEnabled == before[i].TLSEnabled && s.options.TLSRedirect == before[i].TLSRedirect, "sync: a root-path service keeps its own TLS settings")
 			continue
 		}
-		// the service that routes (first host, "/")
 		rs, _ := m.serviceFor(s.options.Hosts[0], "/")
 		if rs != nil {
-			// rs serves the root path, so its flags are its own
 			vAssert(s.options.TLSEnabled == rs.options.TLSEnabled && s.options.TLSRedirect == rs.options.TLSRedirect, "sync: a sub-path service follows the root-path service of its host")
+			changed = true
 		} else {
 			vAssert(!s.options.TLSEnabled && s.options.TLSRedirect == defaultServiceOptions.TLSRedirect, "sync: without a root-path service TLS is off")
 		}
 	}
-	vCover(len(svcs) > 1 && svcs[1].options.TLSEnabled != before[1].TLSEnabled, "sync changed a flag reachable")
+	vCover(changed, "sub-path service with a root-path service reachable")
 }
